@@ -250,6 +250,12 @@ def getFlat (c : SrrConfig) (m : Rat) (layers : List (Arr2 Rat)) : Option (Arr2 
 
 /-! ## specification: the geometric model -/
 
+/-- a crossed stack: at least two layers, even layers are `l0 × s0`, odd layers `l1 × s1` -/
+def Crossed {α : Type} (layers : List (Arr2 α)) (l0 s0 l1 s1 : Nat) : Prop :=
+  2 ≤ layers.length ∧
+  ∀ (i : Nat) (l : Arr2 α), layers[i]? = some l →
+    l.rows = (if i % 2 = 0 then l0 else l1) ∧ l.cols = (if i % 2 = 0 then s0 else s1)
+
 /-- effective offset list of the layers: a zero is prepended when the first offset is not zero -/
 def effList (offs : List Nat) : List Nat :=
   match offs with
@@ -286,6 +292,17 @@ def voxel {α : Type} (z : α) (l0 l1 mag p w : Nat) (offs : List Nat) (layers :
       l.get s.1 s.2
     else z
   | none => z
+
+/-- the source index of an in-footprint voxel exists in its layer -/
+def voxelInRange {α : Type} (l0 l1 mag p w : Nat) (offs : List Nat) (layers : List (Arr2 α))
+    (r cc i : Nat) : Bool :=
+  match layers[i]? with
+  | some l =>
+    if inFootprint l0 l1 mag p offs r cc i then
+      let s := sourceIndex mag p w offs r cc i
+      decide (s.1 < l.rows) && decide (s.2 < l.cols)
+    else true
+  | none => false
 
 /-- flattened image prescribed by the model: the mean over layers of the voxels -/
 def flatSpec (l0 l1 mag p w : Nat) (offs : List Nat) (layers : List (Arr2 Rat)) (r cc : Nat) : Rat :=
